@@ -45,8 +45,10 @@ def _helper_body(draw, params, earlier, want):
         if ns:
             n0 = draw(st.sampled_from(ns))
             opts += [n0, n0, f"-{n0}", f"{n0} * 2 + 1", f"(lambda {n0}: {n0} + 1)({n0} * 2)", f"({n0} if {n0} > 1 else 0)"]
+            opts += [f"(lambda q: q * 10 + q)({n0} - 1)", f"(lambda x: x * x + x)({n0})"]
             if len(ns) > 1:
-                opts += [ns[1], f"{ns[0]} - {ns[1]}", f"(lambda q: q + {ns[0]})({ns[1]})", f"(lambda {ns[1]}, {ns[0]}: {ns[0]} - {ns[1]})({ns[0]}, {ns[1]})"]
+                opts += [f"(lambda q: q * 10 + q)({ns[0]} - {ns[1]})", f"(lambda {ns[0]}: {ns[0]} * 10 + {ns[0]})({ns[1]} - {ns[0]})",
+                         ns[1], f"{ns[0]} - {ns[1]}", f"(lambda q: q + {ns[0]})({ns[1]})", f"(lambda {ns[1]}, {ns[0]}: {ns[0]} - {ns[1]})({ns[0]}, {ns[1]})"]
         if es:
             e0 = draw(st.sampled_from(es))
             opts += [f"{e0}.n", f"{e0}.n + {e0}.m", f"{e0}.xs.Count()"]
